@@ -49,6 +49,7 @@ func init() {
 	register("C05", func(c *Ctx) error {
 		o := base
 		o.Handlers, o.VetoPct, o.NestedPct, o.RelPct = true, 25, 10, 18
+		o.BindKinds = true
 		chain := o
 		chain.Shape = "requirechain"
 		return runHistCases(c, "C05", "EvalC05",
